@@ -490,7 +490,11 @@ func (v *view) build(st simcore.Step, sender int) []sdk.Msg {
 			return one(&tftypes.MsgSetDenomMetadata{Sender: me, Metadata: banktypes.Metadata{Description: fmt.Sprintf("m%d", x1%7), Base: d, Display: d, Name: d, Symbol: fmt.Sprintf("S%d", x1%7),
 				DenomUnits: []*banktypes.DenomUnit{{Denom: d, Exponent: 0}}}})
 		default:
-			return one(&tftypes.MsgChangeAdmin{Sender: me, Denom: d, NewAdmin: w.g.Accts[(sender+1+int(x2%int64(n-1)))%n].String()})
+			newAdmin := w.g.Accts[(sender+1+int(x2%int64(n-1)))%n].String()
+			if x1%4 == 0 {
+				newAdmin = "" // the admin renounces: nobody administers the denomination from now on, on any node, restarted or imported
+			}
+			return one(&tftypes.MsgChangeAdmin{Sender: me, Denom: d, NewAdmin: newAdmin})
 		}
 	case "stake-delegate":
 		val, _ := pick(w.g.ValAddrs, x0)
@@ -524,7 +528,11 @@ func (v *view) build(st simcore.Step, sender int) []sdk.Msg {
 		// genesis) for the unbonding period and delegate them
 		d := gammtypes.GetPoolShareDenom(1)
 		val, _ := pick(w.g.ValAddrs, x0)
-		if x2%3 == 0 {
+		heavy := st.Arg(9) == 1
+		if heavy && x3%4 != 0 {
+			val = w.g.ValAddrs[0]
+		}
+		if x2%3 == 0 || (heavy && x2%3 == 1) {
 			// delegate an existing lock of these shares instead: its duration may exceed the unbonding time
 			var free []lockuptypes.PeriodLock
 			for _, l := range v.sfLocks(sender) {
